@@ -481,8 +481,9 @@ class VirtualFileSystem(FileSystem[str]):
             # Match whole folder names only, "mat" is not a prefix of "materials/".
             folder += '/'
 
-        for filename, data in self._mapping.values():
-            if filename.startswith(folder):
+        # Compare the cleaned (case-folded) names, the folder has been cleaned too.
+        for key, (filename, data) in self._mapping.items():
+            if key.startswith(folder):
                 yield File(self, filename, filename)
 
     def _file_exists(self, name: str) -> bool:
@@ -675,12 +676,12 @@ class VPKFileSystem(FileSystem[VPKFile]):
     def walk_folder(self, folder: str = '') -> Iterator[File[Self]]:
         """Yield files in a folder."""
         # All VPK files use forward slashes.
-        folder = folder.replace('\\', '/')
+        folder = folder.replace('\\', '/').casefold()
         if folder and not folder.endswith('/'):
             # Match whole folder names only, "mat" is not a prefix of "materials/".
             folder += '/'
         for file in self._name_to_file.values():
-            if (file.dir + '/').startswith(folder):
+            if (file.dir.casefold() + '/').startswith(folder):
                 yield File(self, file.filename, file)
 
     def open_bin(self, name: Union[str, File[Self]]) -> BinaryIO:
